@@ -142,8 +142,11 @@ def mod_true(m, amount, d):
 
 def rule_true(r, txn):
     """Documented CSV semantics: case-insensitive regex search on the description AND every modifier."""
-    if re.search(r['pattern'], txn['description'], re.IGNORECASE) is None:
-        return False
+    try:
+        if re.search(r['pattern'], txn['description'], re.IGNORECASE) is None:
+            return False
+    except (re.error, OverflowError):
+        return False  # a row whose pattern is no regular expression never applies
     return all(mod_true(m, txn['amount'], txn.get('date')) for m in r['mods'])
 
 
